@@ -37,7 +37,10 @@ RULE = ("E4: outline template with the 6 placeholder positions {name, step name,
         "background {absent, plain, parametrised name} x rule background {absent, plain, parametrised} = all 9; "
         "inherited order feature steps, rule steps, own steps; a step with a parametrised name must be rendered per "
         "row, a step with a plain name may be untouched or rendered). "
-        "Deviation = a combo, a background, a non-'x' cell, a "
+        "The placeholder DELIMITERS as ordinary characters (slot 'delim', 6 fragments: '>' before the first '<', "
+        "'<' without '>', '<<a>>', '<>', '> ... <' before the text, lone '>' and '<' around a real placeholder) in "
+        "outline name, step name, doc-string, step-table heading and cell, tags and examples names; only '<col>' of an "
+        "existing column is a placeholder. Deviation = a delimiter fragment, a combo, a background, a non-'x' cell, a "
         "(b,a) block, a tagged block, a templated block name, the special slot, a non-default schema. quick: all 64 masks x all shapes x <=1 deviation (block-name / special-placeholder / "
         "exotic-block-tag / rule-background deviations on the 8 masks {none, each single position, all} only), full mask "
         "x <=2 deviations (pairs with a background deviation use 5 of the 11 background layouts); thorough: all masks x <=2, full mask x <=3, and full mask x ALL value/order/tag/schema "
@@ -74,6 +77,8 @@ ASSUMPTIONS = [
     "a background whose step NAME carries a placeholder is rendered per row by the builder: demanded then is the same substitution as for outline steps (name, doc-string, table); with a plain step name the statement is silent and both the untouched and the rendered background are accepted",
     "parsed route: if the parser does not deliver a template step as written, that is reported as subcheck 'template-parse' (a parsing matter, C04 territory) and the expansion is judged against the template as parsed",
     "every generated step table (own and background steps), the template's tables after expansion and the examples tables after table-API histories are read through every read API (iteration, table[i], row.headings, row.items(), row.as_dict(), row[h], row.get(h), h in row, iter/len of a row, Table.__eq__ against a freshly built Table) and must agree with table.headings / row.cells (content; that a row shares the list OBJECT of the table is not demanded)",
+    "outline tags: after substitution a tag that still holds a '<...>' group is dropped (documented); a tag holding stray '<' and '>' that form no placeholder ('>x<') may be dropped (behave's test is '<' in tag and '>' in tag) or kept in normalised form - both accepted; kept tags are normalised as documented for Tag.make_name (blank -> '_', the quoting characters < > removed)",
+    "substitution is SIMULTANEOUS (a substituted value is not scanned again): '<<a>>' with a cell that is another column's name gives '<' + cell + '>'",
     "generated scenario name = annotation schema applied to the substituted outline name, row id 'B.R' (1-based block.row) and the examples name",
     "tags are compared as multisets (the statement does not order them); examples-block tags are compared by exact text",
     "placeholders whose column does not exist are 'text without placeholders': left unchanged; tags still carrying one are dropped (documented)",
@@ -106,7 +111,48 @@ SPECIAL_TAGS = [u"g<examples.index>.<row.index>", u"n_<examples.name>", u"r<row.
 # =============================================================================
 # abstract outline -> template
 # =============================================================================
-def template(mask, cols="ab", special=0, combo=0, bg=0):
+def delim_text(t, d, tag=False):
+    """the placeholder DELIMITERS as ordinary characters, before / between / after real placeholders.  Only '<col>'
+    for an existing column is a placeholder; everything else is literal.
+    1 '>' before the first '<'   2 '<' without a '>' after the text   3 '<<a>>'   4 '<>' (empty name)
+    5 '>' and then a lone '<' before the text   6 a lone '>' before and a lone '<' after the <b> placeholder"""
+    sp = u"" if tag else u" "
+    if d == 1:
+        return u"v" + sp + u">" + sp + t
+    if d == 2:
+        return t + sp + u"a<b"
+    if d == 3:
+        return t + sp + u"<<a>>"
+    if d == 4:
+        return t + sp + u"<>" + sp + u"x"
+    if d == 5:
+        return u"x" + sp + u">" + sp + u"y" + sp + u"<" + sp + u"z" + sp + t
+    if d == 6:
+        if u"<b>" in t:
+            return t.replace(u"<b>", u">" + sp + u"<b>" + sp + u"<", 1)
+        return u">" + sp + t + sp + u"<"
+    return t
+
+
+def _delimiters(tmpl, d):
+    """slot 'delim': the fragment goes into the outline name, the first step name, the doc-string, one step-table
+    heading, one step-table cell and every tag but the first"""
+    if not d:
+        return tmpl
+    tmpl["name"] = delim_text(tmpl["name"], d)
+    tmpl["tags"] = tmpl["tags"][:1] + [delim_text(t, d, tag=True) for t in tmpl["tags"][1:]]
+    st = tmpl["steps"]
+    assert st[0][1].startswith(u"a step ")
+    st[0] = (st[0][0], u"a step " + delim_text(st[0][1][len(u"a step "):], d), st[0][2], st[0][3])
+    st[1] = (st[1][0], st[1][1], delim_text(st[1][2], d), st[1][3])
+    heads, rows = st[2][3]
+    heads = [heads[0], delim_text(heads[1], d)] + heads[2:]
+    rows = [[rows[0][0], delim_text(rows[0][1], d)] + rows[0][2:]] + rows[1:]
+    st[2] = (st[2][0], st[2][1], st[2][2], (heads, rows))
+    return tmpl
+
+
+def template(mask, cols="ab", special=0, combo=0, bg=0, delim=0):
     """the outline template as plain data: name, tags, steps [(keyword, name, text|None, table|None)]"""
     def t(bit, on, off):
         return on if mask & bit else off
@@ -125,7 +171,7 @@ def template(mask, cols="ab", special=0, combo=0, bg=0):
                    t(TCELL, [u"b", u"<a> <b>", u"<a>"], [u"b", u"a b", u"a"])])),
             ],
         }
-        return _decorate(tmpl, mask, combo, bg)
+        return _decorate(_delimiters(tmpl, delim), mask, combo, bg)
     return {       # E2 template: three columns, 'c' initially unknown
         "name": u"Out <a>-<b>-<c> @<row.id> <examples.name>",
         "tags": [u"o1", u"t_<a>", u"u_<c>", u"g<examples.index>.<row.index>"],
@@ -251,8 +297,9 @@ def subst(text, row):
 
 
 def tag_name(text):
-    """documented normalisation of generated tags: white space -> '_' (the alphabet holds no other special char)"""
-    return u"".join(u"_" if ch.isspace() else ch for ch in text)
+    """documented normalisation of generated tags (Tag.make_name): white space -> '_', the quoting characters < > are
+    removed (the alphabet of OUTLINE tags holds no other special character)"""
+    return u"".join(u"_" if ch.isspace() else ch for ch in text if ch not in u"<>")
 
 
 def ref_expand(tmpl, blocks, schema):
@@ -275,10 +322,17 @@ def ref_expand(tmpl, blocks, schema):
                     .replace(u"{row.index}", u"%d" % (ri + 1)).replace(u"{examples.index}", u"%d" % (bi + 1))
                     .replace(u"{examples.name}", u"\1").replace(u"\0", name).replace(u"\1", ex_name))
             tags = []
+            tags_opt = []
             for t in tmpl["tags"]:
                 t2 = subst(t, rowsp)
                 if _PH.search(t2):
                     continue            # unknown placeholder: documented to be dropped
+                if u"<" in t2 and u">" in t2:
+                    # stray delimiters that form no placeholder ('>x<'): behave's "still parametrised" test is
+                    # '<' in tag and '>' in tag, so it drops such a tag; the documentation only speaks of unknown
+                    # placeholders -> both outcomes accepted (dropped, or kept in normalised form)
+                    tags_opt.append(tag_name(t2))
+                    continue
                 tags.append(tag_name(t2))
             tags += b["tags"]
             steps = []
@@ -304,7 +358,7 @@ def ref_expand(tmpl, blocks, schema):
                                     None if table is None else (list(table[0]), [list(r) for r in table[1]])))
                 bg_want.append(allowed)
             out.append({"name": full, "tags": sorted(tags), "btags": list(b["tags"]), "steps": steps, "bi": bi,
-                        "ri": ri, "bg_want": bg_want})
+                        "ri": ri, "bg_want": bg_want, "tags_opt": tags_opt})
     return out
 
 
@@ -386,6 +440,22 @@ def first_field_diff(got, want):
     """name of the first field in which an observed scenario differs from the reference one"""
     if got["name"] != want["name"]:
         return "name", got["name"], want["name"]
+    if got["tags"] != want["tags"] and want.get("tags_opt"):
+        extra = list(got["tags"])
+        ok = True
+        for t in want["tags"]:
+            if t in extra:
+                extra.remove(t)
+            else:
+                ok = False
+        opt = list(want["tags_opt"])
+        for t in extra:
+            if t in opt:
+                opt.remove(t)
+            else:
+                ok = False
+        if ok:
+            got = dict(got, tags=want["tags"])       # required tags present, the rest is from the accept-set
     if got["tags"] != want["tags"]:
         left = list(got["tags"])
         for t in want.get("btags", ()):          # are the block's tags there, exactly as written?
@@ -564,7 +634,7 @@ def run_feature(feature):
         cfg = Configuration("", load_config=False)
         cfg.reporters = []
         reg = StepRegistry()
-        reg.add_step_definition("step", u"a step with{rest}", _step_any)
+        reg.add_step_definition("step", u"a step {rest}", _step_any)
         reg.add_step_definition("step", u"a text", _step_any)
         reg.add_step_definition("step", u"a table", _step_any)
         reg.add_step_definition("step", u"a background{rest}", _step_any)
@@ -608,11 +678,19 @@ def check_outline(case):
     combo = case[4] if len(case) > 4 else 0
     bg = case[5] if len(case) > 5 else 0
     do_run = case[6] if len(case) > 6 else 1
+    delim = case[7] if len(case) > 7 else 0
     schema = SCHEMAS[schema_id]
-    tmpl = template(mask, special=special, combo=combo, bg=bg)
+    tmpl = template(mask, special=special, combo=combo, bg=bg, delim=delim)
     nsteps = len(tmpl["steps"]) + len(tmpl.get("bg") or ()) + len(tmpl.get("rbg") or ())
     blocks = [block_model(b, i) for i, b in enumerate(blocks_spec)]
+    if delim:
+        for b in blocks:
+            if b["name"]:
+                b["name"] = delim_text(b["name"], delim)
     want = ref_expand(tmpl, blocks, schema)
+    # input class in which a row's cell, put between the template's own stray brackets ('<<a>>'), spells ANOTHER
+    # column's placeholder: named in the descriptor, because sequential and simultaneous substitution differ there
+    respell = delim == 3 and any(c in b["headings"] for b in blocks for r in b["rows"] for c in r)
     per_mode = []
     obs = []
     n = 0
@@ -620,6 +698,8 @@ def check_outline(case):
     try:
         for mode in ("parsed", "api"):
             base = {"subcheck": "expansion", "built": mode}
+            if respell:
+                base["trigger"] = "cell-value-between-template-brackets-spells-a-column-placeholder"
             v = []
             per_mode.append((mode, v))
             n += 1
@@ -766,12 +846,13 @@ def slots(shape):
     out.append((("special",), (1,)))
     out.append((("combo",), (1, 2, 3)))
     out.append((("bg",), (1, 2) + tuple(range(3, 12))))
+    out.append((("delim",), (1, 2, 3, 4, 5, 6)))
     return out
 
 
 def apply_devs(shape, devs):
     blocks = [[0, 0, [[VALUES[0], VALUES[0]] for _ in range(nr)], 0] for nr in shape]
-    schema = special = combo = bg = 0
+    schema = special = combo = bg = delim = 0
     for slot, val in devs:
         if slot[0] == "order":
             blocks[slot[1]][0] = val
@@ -787,9 +868,11 @@ def apply_devs(shape, devs):
             combo = val
         elif slot[0] == "bg":
             bg = val
+        elif slot[0] == "delim":
+            delim = val
         else:
             schema = val
-    return tuple((o, t, tuple(tuple(r) for r in rows), bn) for o, t, rows, bn in blocks), schema, special, combo, bg
+    return tuple((o, t, tuple(tuple(r) for r in rows), bn) for o, t, rows, bn in blocks), schema, special, combo, bg, delim
 
 
 BG_FEW = (1, 2, 5, 9, 10)      # feature bg parametrised / plain; in a rule: (absent, param), (param, absent), (param, plain)
@@ -810,7 +893,7 @@ FEW_MASKS = (0, NAME, STEP, DOC, THEAD, TCELL, TAG, FULL)
 
 def _mask_independent(devs):
     """deviations whose effect does not depend on which template positions carry column placeholders"""
-    return any(slot[0] in ("bname", "special") or (slot[0] == "tagged" and val > 1) or (slot[0] == "bg" and val > 2)
+    return any(slot[0] in ("bname", "special", "delim") or (slot[0] == "tagged" and val > 1) or (slot[0] == "bg" and val > 2)
                for slot, val in devs)
 
 
@@ -818,7 +901,7 @@ def outline_cases(masks, maxdev, mindev=0, few_masks_for_independent=False, few_
     for k in range(mindev, maxdev + 1):
         for shape in SHAPES:
             for devs in deviations(shape, k, few_bg):
-                blocks, schema, special, combo, bg = apply_devs(shape, devs)
+                blocks, schema, special, combo, bg, delim = apply_devs(shape, devs)
                 use = masks
                 if few_masks_for_independent and _mask_independent(devs):
                     use = [m for m in masks if m in FEW_MASKS]
@@ -826,7 +909,7 @@ def outline_cases(masks, maxdev, mindev=0, few_masks_for_independent=False, few_
                     # the real run of the parsed feature (template unchanged by running, generated scenarios pass):
                     # on every outline (thorough) / on the 8 FEW_MASKS and every combo/background outline (quick)
                     yield (mask, blocks, schema, special, combo, bg,
-                           1 if (run_all or mask in FEW_MASKS or combo or bg) else 0)
+                           1 if (run_all or mask in FEW_MASKS or combo or bg) else 0, delim)
 
 
 def exhaustive_value_cases(mask, max_rows):
